@@ -361,6 +361,177 @@ func parserRejects(src, path string, budget int64) (rejects bool, obs Obs) {
 	return rejects, finish(Obs{Kind: "ok"}, t)
 }
 
+// unclosedBlock is an arbiter that shares no code with the repository: a small scanner over the
+// directive structure of a template source. It reports true only when the source certainly ends
+// inside a block whose opening directive is complete (@if/@each/@for, one-argument @insert, a
+// @component followed by @slot, a @slot inside such a component) and that no @end closes. It
+// reports false whenever it is not sure (source ends inside {{ }}, a comment, a directive's
+// parentheses or a string). The parser of the tree under test is the arbiter for everything else;
+// this one exists because a parser that stops demanding @end would otherwise vouch for itself.
+func unclosedBlock(src string) bool {
+	type frame struct{ kind string }
+	var stack []frame
+	i, n := 0, len(src)
+	skipParens := func(j int) (end int, commas int, ok bool) {
+		// src[j] == '('
+		depth := 0
+		for k := j; k < n; k++ {
+			switch c := src[k]; c {
+			case '"', '\'':
+				q := c
+				k++
+				for k < n && src[k] != q {
+					if src[k] == '\\' {
+						k++
+					}
+					k++
+				}
+				if k >= n {
+					return 0, 0, false
+				}
+			case '(', '[', '{':
+				depth++
+			case ')', ']', '}':
+				depth--
+				if depth == 0 {
+					return k + 1, commas, true
+				}
+			case ',':
+				if depth == 1 {
+					commas++
+				}
+			}
+		}
+		return 0, 0, false
+	}
+	for i < n {
+		if strings.HasPrefix(src[i:], "{{--") {
+			j := strings.Index(src[i:], "--}}")
+			if j < 0 {
+				return false
+			}
+			i += j + 4
+			continue
+		}
+		if strings.HasPrefix(src[i:], "{{") {
+			j := strings.Index(src[i:], "}}")
+			if j < 0 {
+				return false
+			}
+			i += j + 2
+			continue
+		}
+		if src[i] == '\\' && i+1 < n && src[i+1] == '@' {
+			i += 2
+			continue
+		}
+		if src[i] != '@' {
+			i++
+			continue
+		}
+		// directive names are matched as the lexer matches them: the longest known name that the
+		// text starts with ("@endLAY" is @end followed by text)
+		name := ""
+		for _, d := range []string{"continueIf", "component", "continue", "breakIf", "reserve", "elseif", "insert", "break", "slot", "else", "each", "dump", "end", "use", "for", "if"} {
+			if strings.HasPrefix(src[i+1:], d) {
+				name = d
+				break
+			}
+		}
+		j := i + 1 + len(name)
+		if name == "" {
+			i++
+			continue
+		}
+		if j == n {
+			// the name itself may be cut short ("@en"): unless it is a complete @end it closes nothing
+			if name == "end" && len(stack) > 0 {
+				stack = stack[:len(stack)-1]
+			}
+			break
+		}
+		i = j
+		switch name {
+		case "if", "each", "for":
+			if i >= n || src[i] != '(' {
+				continue
+			}
+			end, _, ok := skipParens(i)
+			if !ok {
+				return false
+			}
+			i = end
+			stack = append(stack, frame{name})
+		case "elseif", "use", "reserve", "dump", "breakIf", "continueIf":
+			if i < n && src[i] == '(' {
+				end, _, ok := skipParens(i)
+				if !ok {
+					return false
+				}
+				i = end
+			}
+		case "insert":
+			if i >= n || src[i] != '(' {
+				continue
+			}
+			end, commas, ok := skipParens(i)
+			if !ok {
+				return false
+			}
+			i = end
+			if commas == 0 {
+				stack = append(stack, frame{"insert"})
+			}
+		case "component":
+			if i >= n || src[i] != '(' {
+				continue
+			}
+			end, _, ok := skipParens(i)
+			if !ok {
+				return false
+			}
+			i = end
+			k := i
+			for k < n && (src[k] == ' ' || src[k] == '\n' || src[k] == '\t' || src[k] == '\r') {
+				k++
+			}
+			if k >= n {
+				return false // cut right after the directive: block form or not, unknown
+			}
+			if strings.HasPrefix(src[k:], "@slot") {
+				stack = append(stack, frame{"component"})
+			} else if src[k] == '@' && n-k < len("@slot") && strings.HasPrefix("@slot", src[k:]) {
+				return false
+			}
+		case "slot":
+			if len(stack) == 0 || stack[len(stack)-1].kind != "component" {
+				// a placeholder in a component's own file
+				if i < n && src[i] == '(' {
+					end, _, ok := skipParens(i)
+					if !ok {
+						return false
+					}
+					i = end
+				}
+				continue
+			}
+			if i < n && src[i] == '(' {
+				end, _, ok := skipParens(i)
+				if !ok {
+					return false
+				}
+				i = end
+			}
+			stack = append(stack, frame{"slot"})
+		case "end":
+			if len(stack) > 0 {
+				stack = stack[:len(stack)-1]
+			}
+		}
+	}
+	return len(stack) > 0
+}
+
 type c18FaultCase struct {
 	fileIdx int
 	fault   string
@@ -611,6 +782,15 @@ func checkC18Fault(sc *Scenario, budget int64, baseline map[string]Obs, acc *Acc
 		}
 		if rej {
 			return mustFail("syntactically wrong (its prefix is rejected by the parser)"), hit
+		}
+		if unclosedBlock(ex.Content) {
+			if acc != nil {
+				acc.Probe("unclosed-block-decided-by-the-independent-scanner", 1)
+			}
+			if f := mustFail("syntactically wrong (it ends inside a block that no @end closes)"); f != nil {
+				f.sig += ":unclosed-block"
+				return f, hit
+			}
 		}
 		return nil, hit
 	}
